@@ -1,11 +1,21 @@
 #!/bin/bash
-# runs every claimed check once (quick tier) and prints one line per property; exit 1 if any does not hold
+# runs every claimed check once (quick tier) and prints one line per property; exit 1 if any does not hold.
+# PAR=<n> runs n checks at a time (the facts of the tree are extracted once, by the first check).
 cd ${VERIF_DIR:-/verif}
-rc=0
-for id in $(python3 -c "import json;print(' '.join(c['property_id'] for c in json.load(open('MANIFEST.json'))['checks']))"); do
-  out=$(./check $id --tier quick 2>&1 | grep -E "^RESULT|^VIOLATION|^ANCHOR|^REPORT" )
+ids=$(python3 -c "import json;print(' '.join(c['property_id'] for c in json.load(open('MANIFEST.json'))['checks']))")
+one() {
+  out=$(./check $1 --tier quick 2>&1 | grep -E "^RESULT|^VIOLATION|^ANCHOR|^REPORT")
   line=$(echo "$out" | grep "^RESULT")
   echo "$line"
-  if ! echo "$line" | grep -q "holds"; then rc=1; echo "$out" | grep -E "^REPORT|^ANCHOR" | cut -c1-300; fi
-done
+  if ! echo "$line" | grep -q "holds"; then echo "$out" | grep -E "^REPORT|^ANCHOR" | cut -c1-300; fi
+}
+export -f one
+first=$(echo $ids | cut -d' ' -f1)
+tmp=$(mktemp)
+one $first > $tmp
+echo $ids | tr ' ' '\n' | tail -n +2 | xargs -P ${PAR:-1} -I{} bash -c 'one {}' >> $tmp
+cat $tmp
+rc=0
+grep "^RESULT" $tmp | grep -qv "holds" && rc=1
+rm -f $tmp
 exit $rc
